@@ -41,6 +41,7 @@ var Variants = []VariantInfo{
 	{Name: "ok_unsafeptr", Class: ClassOK}, // an injector whose result is unsafe.Pointer, with a fallible provider
 	{Name: "ok_generic2", Class: ClassOK},  // a copied declaration instantiating a generic type with two type arguments
 	{Name: "ok_setalias", Class: ClassOK},  // type Set = wire.ProviderSet declared next to a well-formed set variable
+	{Name: "ok_structconv", Class: ClassOK}, // wire.Struct((*Bar)(nil), "*"): the pointer spelled as a conversion, as Bind and FieldsOf accept it
 	{Name: "bad_missing", Class: ClassBad, Stem: "no provider found"},
 	{Name: "bad_unused", Class: ClassBad, Stem: "unused provider"},
 	{Name: "bad_multi", Class: ClassBad, Stem: "multiple bindings"},
@@ -390,6 +391,19 @@ func InitBar() {RES} {
 
 // defaultPair is an ordinary declaration of the injector file: wire copies it into the output.
 var defaultPair = Pair[string, int]{Key: "k{N}", Val: {N}}
+`),
+		}
+	case "ok_structconv":
+		return []world.File{
+			f("model.go", basicModel),
+			f("wire.go", injectHeader+`package {P}
+
+import "github.com/google/wire"
+
+func InitBar() {RES} {
+	wire.Build(ProvideFoo{N}, wire.Struct((*Bar)(nil), "*"))
+	{RET}
+}
 `),
 		}
 	case "ok_setalias":
